@@ -1,10 +1,18 @@
 """C06 — skip markers and -k/-m selections decide exactly which tasks may run."""
+import common
 from impl import engine, project
+
+# Finding F1 (`after` on a task without products creates no edge) also breaks C06: the skip of such a target does not reach the
+# dependant, and selecting the dependant deselects the target. These inputs are generated, and classified as F1, only when
+# known_findings.json lists F1 as a *known* finding of C06 (the integrator owns that file); otherwise the campaign keeps
+# after-targets with products, as stated in ASSUMPTIONS.
+F1_KNOWN = any(e.get("id") == "F1" and e.get("status") == "known" for e in common.load_known("C06"))
 
 ASSUMPTIONS = [
     "-k/-m expressions are resolved to task sets by an independent evaluator in the harness (impl/selexpr.py); the expression "
     "language itself is property C16",
-    "after-targets always have products in this campaign (finding F1 is scoped to C01)",
+    "after-targets without products (finding F1) are generated only when known_findings.json lists F1 as known for C06; a violation is "
+    "classified F1 only if the task's membership in the skip closure / selection closure needs a product-less after-edge",
 ]
 
 
@@ -20,20 +28,49 @@ def oracle(hist, records):
         out = engine.outcomes(obs)
         ex = set(engine.executed(obs))
         usk = engine.user_skipped_closure(spec)
+        usk_nof1, el_nof1 = closures_without_f1(spec, cfg)
         for t in usk:
+            f = "F1" if t not in usk_nof1 else None      # in the closure only through a product-less after-edge
             if t in ex:
-                bad.append(("skip", f"task {t} is skipped by marker (or depends on a skipped task) but its body ran", None))
+                bad.append(("skip" + ("-F1" if f else ""), f"task {t} is skipped by marker (or depends on a skipped task) but its body ran", f))
             if out.get(t) == "FAIL":
-                bad.append(("skip", f"skipped task {t} reported FAIL", None))
+                bad.append(("skip" + ("-F1" if f else ""), f"skipped task {t} reported FAIL", f))
         el = engine.eligible(spec, cfg)
         for t in {x["id"] for x in spec["tasks"]} - el:
             if t in ex:
                 bad.append(("select", f"task {t} is not selected by k={cfg.get('k')!r} m={cfg.get('m')!r} (nor needed by a selected task) but its body ran", None))
             if out.get(t) != "SKIP":
                 bad.append(("select", f"task {t} is not eligible under k={cfg.get('k')!r} m={cfg.get('m')!r} but is reported {out.get(t)}", None))
+        # "exactly": SKIP is only ever reported for tasks that are deselected or in the closure of a user-skipped task
+        for t in el - usk:
+            if out.get(t) == "SKIP":
+                f = "F1" if t not in el_nof1 else None   # needed by a selected task only through a product-less after-edge
+                bad.append(("only" + ("-F1" if f else ""), f"task {t} is eligible under k={cfg.get('k')!r} m={cfg.get('m')!r} and neither it nor anything it depends on carries a "
+                                    f"skip / true skipif mark, but it is reported SKIP", f))
         if obs["exit"] == 1 and not any(o == "FAIL" for o in out.values()):
             bad.append(("exit", "exit code 1 without any failed task", None))
     return bad
+
+
+def closures_without_f1(spec, cfg):
+    """skip closure and eligible set computed without the product-less after-edges (what the code implements, finding F1)"""
+    f1 = engine.f1_edges(spec)
+    if not f1:
+        return engine.user_skipped_closure(spec), engine.eligible(spec, cfg)
+    edges = engine.spec_task_edges(spec) - f1
+    s0 = {t["id"] for t in spec["tasks"] if "skip" in t.get("marks", []) or "skipif_true" in t.get("marks", [])}
+    usk = set(s0)
+    for t in s0:
+        usk |= engine.closure(edges, t, forward=True)
+    el = {t["id"] for t in spec["tasks"]}
+    for kind in ("k", "m"):
+        if cfg.get(kind):
+            sel = set(engine.sel_eval(kind, cfg[kind], spec))
+            cl = set(sel)
+            for t in sel:
+                cl |= engine.closure(edges, t, forward=False)
+            el &= cl
+    return usk, el
 
 
 def gen_expr(rng, spec, kind):
@@ -56,6 +93,59 @@ def gen_expr(rng, spec, kind):
     return e(2)
 
 
+SHAPES = {
+    # chain 0 -> 1 -> 2
+    "chain": [(0, [100], [110], []), (1, [110], [111], []), (2, [111], [112], [])],
+    # diamond 0 -> {1, 2} -> 3
+    "diamond": [(0, [100], [110], []), (1, [110], [111], []), (2, [110], [112], []), (3, [111, 112], [113], [])],
+    # 0 -> 1, 2 is `after` 1, 3 independent
+    "after": [(0, [100], [110], []), (1, [110], [111], []), (2, [], [112], [1]), (3, [100], [113], [])],
+}
+PLACEMENTS = [["skip"], ["skipif_true"], ["skipif_false"], ["skipif_false", "skipif_true"]]
+
+
+def small_scope(ctx):
+    """fixed shapes × every single placement of skip / skipif(True) / skipif(False) / both skipifs × options × fresh / built state,
+    and every single-task -k, -m on one marked task, both combined. Quick tier: the option sets rotate; thorough: full product."""
+    full = ctx.thorough
+    keep = 1 if full else (2 if ctx.budget > 1.0 else 4)      # quick: every 4th combination (rotating), intensified: every 2nd
+    hs = []
+    optsets = [{}, {"force": True}, {"dry": True}, {"force": True, "dry": True}]
+    n = 0
+
+    def mk(shape, marks_of):
+        return {"tasks": [{"id": i, "module": i % 2, "deps": d, "prods": p, "after": a, "after_style": "expr", "marks": list(marks_of.get(i, [])),
+                           "beh": "ok", "style": ["default", "annotated", "kwargs"][i % 3]} for (i, d, p, a) in SHAPES[shape]],
+                "versions": {"0": 0, "1": 0}, "inputs": {"100": 5}}
+
+    for shape, tasks in SHAPES.items():
+        for (tid, *_r) in tasks:
+            for pl in PLACEMENTS:
+                n += 1                     # block counter: rotates which option sets / states a placement gets
+                for oi, opts in enumerate(optsets):
+                    for built in (False, True):
+                        if (n + 2 * oi + built) % keep:
+                            continue
+                        spec = mk(shape, {tid: pl})
+                        steps = []
+                        if built:
+                            # everything up to date except what the mark blocks; then change the input so that "changed" tasks exist
+                            steps = [["build", {}], ["write", 100, 6]]
+                        steps.append(["build", dict(opts)])
+                        hs.append({"tag": "small-skip", "spec": spec, "steps": steps})
+        ids = [t[0] for t in tasks]
+        for tid in ids:
+            for mid in ids:
+                n += 1
+                if n % min(keep, 3) and not full:
+                    continue
+                spec = mk(shape, {mid: ["markone"]})
+                for cfg in ({"k": project.tname(tid)}, {"m": "markone"}, {"k": project.tname(tid), "m": "markone"},
+                            {"k": project.tname(tid), "m": "not markone", "force": True}):
+                    hs.append({"tag": "small-select", "spec": spec, "steps": [["build", dict(cfg)]]})
+    return hs
+
+
 def histories(ctx):
     rng = ctx.rng
     hs = []
@@ -65,8 +155,19 @@ def histories(ctx):
         {"id": 1, "module": 0, "deps": [20], "prods": [21], "after": [], "marks": [], "beh": "ok", "style": "default"},
         {"id": 2, "module": 0, "deps": [], "prods": [22], "after": [], "marks": [], "beh": "ok", "style": "default"}],
         "versions": {"0": 0}, "inputs": {}}, "steps": [["build", {"k": "task_t00x", "m": "skip"}]]})
+    if F1_KNOWN:
+        # corpus: the two C06 faces of F1 — (a) skip on a product-less after-target does not reach the dependant,
+        # (b) selecting the dependant deselects the product-less after-target
+        f1spec = {"tasks": [
+            {"id": 0, "module": 0, "deps": [], "prods": [], "after": [], "marks": ["skip"], "beh": "ok", "style": "default"},
+            {"id": 1, "module": 0, "deps": [], "prods": [21], "after": [0], "after_style": "func", "marks": [], "beh": "ok", "style": "default"}],
+            "versions": {"0": 0}, "inputs": {}}
+        hs.append({"tag": "corpus-F1-skip", "spec": f1spec, "steps": [["build", {}]]})
+        f1sel = {"tasks": [dict(f1spec["tasks"][0], marks=[]), dict(f1spec["tasks"][1])], "versions": {"0": 0}, "inputs": {}}
+        hs.append({"tag": "corpus-F1-select", "spec": f1sel, "steps": [["build", {"k": "task_t01x"}]]})
+    hs += small_scope(ctx)
     for i in range(ctx.scale(120, 1300)):
-        spec = engine.gen_spec(rng, nt=(2, 7), after_p=0.25, after_needs_prods=True, user_markers=True,
+        spec = engine.gen_spec(rng, nt=(2, 7), after_p=0.25, after_needs_prods=not (F1_KNOWN and i % 5 == 0), user_markers=True,
                                marks=(("skip", 0.12), ("skipif_true", 0.1), ("skipif_false", 0.15), ("persist", 0.08)))
         steps = []
         if rng.random() < 0.4:
